@@ -39,6 +39,16 @@ CHECKS = {
    "Breadth-first search to depth 4 (quick) / 6 (thorough) from 8 initial environments over an alphabet of ≈200 Set/Unset/Expand/Eval operations on ordinary, special and positional names; every operation is applied in every distinct reachable store state (successor = replay of the shortest history on a fresh instance + 1 operation); after every transition Walk, Get of 17 names, Args, Opts, Aliases and the AST passed in are compared with a plain map model.",
    "Trusts the map model; canonical state drops Export/ReadOnly (no operation of the alphabet observes them); process environment cleared so NewExecEnv starts from {IFS}.",
    "DESIGN.md §6 C20, §2 E3"),
+ "C02": ("model_checking",
+   "bounded-exhaustive enumeration of symbol strings and grammar derivations against a reference grammar model",
+   "Every string of ≤ 3 symbols over the 59-symbol alphabet, ≤ 4 over the 38-symbol core, ≤ 5 over 20 and ≤ 6 over 16 symbols (thorough: one more each) is classified by an independent recursive-descent model of XCU 2.10 that also builds the expected AST; every accepted string is parsed by the real parser and the position-free AST dump, the comments and the documented node shapes must agree exactly.",
+   "Trusts gram.go (cross-validated against dash/bash at design time); verdicts POSIX leaves open are skipped; programs longer than the bounds are covered only by the derivation sets.",
+   "DESIGN.md §6 C02, §4.1"),
+ "C03": ("model_checking",
+   "bounded-exhaustive enumeration of symbol strings and single-symbol mutations, classified by a reference grammar model",
+   "Every string of the C02 alphabets/bounds that the grammar model rejects (≈ 2·10^7 in the quick tier) must be rejected by the real parser with a parser.Error that carries the caller's name and a position inside the consumed text at the start of a token or construct; plus all single-symbol deletions, insertions, duplications and adjacent swaps of generated well-formed programs.",
+   "Trusts gram.go for valid/invalid; which of several possible errors is reported is not compared; strings whose quotes pair up across symbols are skipped.",
+   "DESIGN.md §6 C03, §4.1"),
 }
 
 def main():
